@@ -58,6 +58,7 @@ MANIFEST = {
     "technique": "bounded exhaustive enumeration with an independent reference model",
 }
 
+MENUS = ("full", "lengthy", "midpoint", "midpoint-noub", "midpoint-default")
 OPS = ("reseed_at", "reroot_at_node", "reroot_at_edge", "reroot_at_midpoint", "to_outgroup_position",
        "randomly_reorient", "randomly_rotate", "ladderize", "reorder")
 SOFT = ("reseed_at",)
@@ -65,22 +66,33 @@ HARD = ("reroot_at_node", "reroot_at_edge", "reroot_at_midpoint")
 
 
 def bounds(tier):
-    b = {"max_leaves": 5, "max_leaves_binary_only": 5,
-         "exhaustive_length_alphabets": {"all_ops": {"{1,2}": 4, "{0,1}": 4},
-                                         "midpoint_only": {"{1,2,3}": 4, "{1,2}": 5, "{0,1}": 5}},
-         "all_child_orders_up_to": 4, "order_variants_at_5": "reversed",
-         "unifurcations": {"double_up_to": 3, "single_up_to": 4},
-         "edge_length_pairs": ["0,L", "L/2,L/2", "L,0", "L/4,3L/4", "None,None (length-free trees)"],
-         "rng_seeds": [0, 1, 2, 3], "shuffle_indices": [0, 1, 2, 3, 4, 5], "reorient_shuffle_indices": [0, 1, 3],
-         "informational_leaf_targets": False}
-    if tier != "quick":
-        b.update({"max_leaves": 6, "max_leaves_binary_only": 6, "order_variants_at_5": "reversed+adjacent swaps",
-                  "unifurcations": {"double_up_to": 4, "single_up_to": 5},
-                  "informational_leaf_targets": True})
-        b["exhaustive_length_alphabets"] = {"all_ops": {"{1,2}": 4, "{0,1}": 4, "{0,1,2}": 3},
-                                            "midpoint_only": {"{1,2,3}": 4, "{0,1,2}": 4, "{1,2}": 5, "{0,1}": 5,
-                                                              "{1,2} binary": 6}}
-    return b
+    q = tier == "quick"
+    return {
+        "max_leaves": 5 if q else 6,
+        "drawings": {
+            "base": "every shape of U(n) as generated",
+            "child orders": "all orders n <= 4; n = 5: " + ("fully reversed" if q else "fully reversed + every adjacent swap"),
+            "unifurcations": ("n <= 2: every <= 2 insertions of chains of 1 or 2; n = 3: every <= 2 single-node insertions; "
+                              "n = 4: every single insertion") if q else
+                             ("n <= 3: every <= 2 insertions of chains of 1 or 2; n = 4: every <= 2 single-node insertions; "
+                              "n = 5: every single insertion"),
+            "seed of out-degree one": "explored, never deciding (counted as info_seed_unifurcation_*)",
+        },
+        "length_patterns": {
+            "all operations, all flags": ["none", "unit", "non-dyadic 0.1*i", "distinct integers", "with root edge (n <= 4)",
+                                          "every assignment over {1,2} and over {0,1}, n <= %d" % (3 if q else 4)]
+                                         + ([] if q else ["every assignment over {0,1,2}, n <= 3"]),
+            "length-sensitive operations, update_bipartitions=False": (["every assignment over {1,2} and over {0,1}, n = 4"] if q else []),
+            "reroot_at_midpoint only": (["{1,2,3} n <= 4 (update_bipartitions=False)", "{1,2} n = 5 (default flags)"] if q else
+                                        ["{1,2,3} and {0,1,2} n <= 4 (all flags)", "{1,2} and {0,1} n = 5 (update_bipartitions=False)",
+                                         "{1,2} binary n = 6 (default flags)"]),
+        },
+        "rootings": "rooted, unrooted; undefined for the unit pattern" + (" (and none / distinct-integer patterns n <= 4)" if q else ", none and distinct-integer patterns"),
+        "edge_length_pairs": ["0,L", "L/2,L/2", "L,0", "L/4,3L/4", "None,None (length-free trees)"],
+        "rng_seeds": [0, 1, 2, 3], "shuffle_indices": [0, 1, 2, 3, 4, 5],
+        "reorient_scripted_shuffle_index_and_update_flag": [[1, False], [3, True]] if q else [[0, False], [1, False], [1, True], [3, True], [5, False]],
+        "informational_leaf_targets": not q,
+    }
 
 
 def tup(x):
@@ -126,81 +138,95 @@ def drawings(n, si, tier):
     shapes = U.shapes(n, binary_only=False)
     shape = shapes[si]
     out = [("base", shape)]
+    q = tier == "quick"
     if n >= 2:
         if n <= 4:
             for o in U.all_orders(shape):
                 if o != shape:
                     out.append(("order", o))
         elif n == 5:
-            if tier == "quick":
+            if q:
                 r = U.reverse_all(shape)
                 if r != shape:
                     out.append(("order", r))
             else:
                 for o in U.order_variants(shape)[1:]:
                     out.append(("order", o))
-        dbl, sgl = (3, 4) if tier == "quick" else (4, 5)
-        if n <= dbl:
-            for u in U.with_unifurcations(shape, 2, (1, 2) if n <= 3 else (1,)):
-                out.append(("unif", u))
-        elif n <= sgl:
-            for u in U.with_unifurcations(shape, 1, (1,)):
-                out.append(("unif", u))
+        if n <= 2 or (n == 3 and not q):
+            us = U.with_unifurcations(shape, 2, (1, 2))
+        elif n == 3 or (n == 4 and not q):
+            us = U.with_unifurcations(shape, 2, (1,))
+        elif n == 4 or (n == 5 and not q):
+            us = U.with_unifurcations(shape, 1, (1,))
+        else:
+            us = []
+        for u in us:
+            out.append(("unif", u))
     return out
 
 
 def length_patterns(layer, shape, n, tier):
-    """[(pattern name, lens list, dyadic?, ops: 'all' | 'midpoint')]"""
+    """[(pattern name, lens list, dyadic?, menu)]; menu in MENUS"""
     k = n_nodes(shape)
     out = []
-    seen = set()
+    seen = {}
+    rank = {m: i for i, m in enumerate(MENUS)}
+    q = tier == "quick"
 
-    def add(name, lens, dyadic, ops):
-        key = (tuple(lens), ops)
-        if key in seen or (tuple(lens), "all") in seen:
+    def add(name, lens, dyadic, menu):
+        key = tuple(lens)
+        if key in seen and rank[seen[key]] <= rank[menu]:
             return
-        seen.add(key)
-        out.append((name, lens, dyadic, ops))
+        if key in seen:
+            out[:] = [x for x in out if tuple(x[1]) != key]
+        seen[key] = menu
+        out.append((name, lens, dyadic, menu))
     if layer == "base":
-        add("none", pat_none(k), True, "all")
-        add("unit", pat_unit(k), True, "all")
-        add("nondyadic", pat_nondyadic(k), False, "all")
-        add("inc", pat_inc(k), True, "all")
+        add("none", pat_none(k), True, "full")
+        add("unit", pat_unit(k), True, "full")
+        add("nondyadic", pat_nondyadic(k), False, "full")
+        add("inc", pat_inc(k), True, "full")
         if n <= 4:
-            add("rootedge", pat_rootedge(k), True, "all")
+            add("rootedge", pat_rootedge(k), True, "full")
+            m = "full" if (n <= 3 or not q) else "lengthy"
             for lens in pat_product(k, (1, 2)):
-                add("x12", lens, True, "all")
+                add("x12", lens, True, m)
             for lens in pat_product(k, (0, 1)):
-                add("x01", lens, True, "all")
-            if tier != "quick" and n <= 3:
+                add("x01", lens, True, m)
+            if not q and n <= 3:
                 for lens in pat_product(k, (0, 1, 2)):
-                    add("x012", lens, True, "all")
+                    add("x012", lens, True, "full")
             for lens in pat_product(k, (1, 2, 3)):
-                add("x123", lens, True, "midpoint")
-            if tier != "quick":
+                add("x123", lens, True, "midpoint-noub" if q else "midpoint")
+            if not q:
                 for lens in pat_product(k, (0, 1, 2)):
                     add("x012", lens, True, "midpoint")
-        elif n == 5 or (n == 6 and tier != "quick" and U.is_binary(shape)):
+        elif n == 5:
             for lens in pat_product(k, (1, 2)):
-                add("x12", lens, True, "midpoint")
-            if n == 5:
+                add("x12", lens, True, "midpoint-default" if q else "midpoint-noub")
+            if not q:
                 for lens in pat_product(k, (0, 1)):
-                    add("x01", lens, True, "midpoint")
+                    add("x01", lens, True, "midpoint-noub")
+        elif n == 6 and not q and U.is_binary(shape):
+            for lens in pat_product(k, (1, 2)):
+                add("x12", lens, True, "midpoint-default")
     elif layer == "order":
-        add("inc", pat_inc(k), True, "all")
-        if n <= 4:
-            add("unit", pat_unit(k), True, "all")
+        add("inc", pat_inc(k), True, "full")
+        if n <= 3 or not q:
+            add("unit", pat_unit(k), True, "full")
     elif layer == "unif":
-        add("inc", pat_inc(k), True, "all")
-        add("none", pat_none(k), True, "all")
+        add("inc", pat_inc(k), True, "full")
+        add("none", pat_none(k), True, "full")
         if n <= 3:
-            add("unit", pat_unit(k), True, "all")
+            add("unit", pat_unit(k), True, "full")
     return out
 
 
-def rootings_for(layer, pname):
-    if layer == "base" and pname in ("none", "unit", "inc"):
+def rootings_for(layer, pname, n, tier):
+    if layer == "base" and (pname == "unit" or (pname in ("none", "inc") and (n <= 4 or tier != "quick"))):
         return (True, False, None)
+    if layer == "unif" and pname == "none" and n >= 4 and tier == "quick":
+        return (False,)
     return (True, False)
 
 
@@ -364,63 +390,62 @@ def edge_pairs(L):
     return [(0, L), (L / 2.0, L / 2.0), (L, 0), (L / 4.0, 3 * L / 4.0)]
 
 
-def op_menu(bf, lens_defined, ops, b, with_info):
+def op_menu(bf, lens_defined, menu, b, with_info):
     """Every (op, target, args) of the documented domain for the tree `bf`.
-    Yields (op, target index or None, args dict, deciding?)."""
+    Yields (op, target index or None, args dict, deciding?).
+    menu 'full': everything; 'lengthy': the operations that read or write edge lengths,
+    update_bipartitions=False only; 'midpoint*': reroot_at_midpoint only."""
     k = bf.k
     n = bf.nleaves
     internal = [i for i in range(k) if bf.is_internal(i)]
     leaves = [i for i in range(k) if not bf.is_internal(i)]
-    if ops == "midpoint":
-        if n >= 2 and lens_defined:
-            for ub in BOOL:
+    full = menu == "full"
+    UB = BOOL if full else (False,)
+    if n >= 2 and lens_defined:
+        if menu == "midpoint-default":
+            yield ("reroot_at_midpoint", None, {"ub": False, "su": True, "cb": True}, True)
+        else:
+            for ub in (BOOL if menu in ("full", "midpoint") else (False,)):
                 for su in BOOL:
                     for cb in BOOL:
                         yield ("reroot_at_midpoint", None, {"ub": ub, "su": su, "cb": cb}, True)
-        return
-    if ops == "midpoint-default":
-        if n >= 2 and lens_defined:
-            yield ("reroot_at_midpoint", None, {"ub": False, "su": True, "cb": True}, True)
-            yield ("reroot_at_midpoint", None, {"ub": False, "su": False, "cb": True}, True)
+    if menu.startswith("midpoint"):
         return
     if n >= 2:
         for i in internal:
-            for ub in BOOL:
+            for ub in UB:
                 for cb in BOOL:
                     for su in BOOL:
                         yield ("reseed_at", i, {"ub": ub, "cb": cb, "su": su}, True)
-            for ub in BOOL:
+            for ub in UB:
                 for su in BOOL:
                     for cb in (BOOL if ub else (True,)):
                         yield ("reroot_at_node", i, {"ub": ub, "su": su, "cb": cb}, True)
             if i != 0:
                 for (l1, l2) in edge_pairs(bf.nodes[i][2]):
-                    for ub in BOOL:
+                    for ub in UB:
                         for su in BOOL:
                             yield ("reroot_at_edge", i, {"l1": l1, "l2": l2, "ub": ub, "su": su}, True)
-        if lens_defined:
-            for ub in BOOL:
-                for su in BOOL:
-                    for cb in BOOL:
-                        yield ("reroot_at_midpoint", None, {"ub": ub, "su": su, "cb": cb}, True)
         for i in range(1, k):
-            for ub in BOOL:
+            for ub in UB:
                 for su in BOOL:
                     yield ("to_outgroup_position", i, {"ub": ub, "su": su}, True)
-        for s in b["rng_seeds"]:
-            for ub in BOOL:
-                yield ("randomly_reorient", None, {"seed": s, "ub": ub}, True)
-        for pick in range(k):
-            for perm in b["reorient_shuffle_indices"]:
+        if full:
+            for s in b["rng_seeds"]:
                 for ub in BOOL:
+                    yield ("randomly_reorient", None, {"seed": s, "ub": ub}, True)
+            for pick in range(k):
+                for (perm, ub) in b["reorient_scripted_shuffle_index_and_update_flag"]:
                     yield ("randomly_reorient", None, {"pick": pick, "perm": perm, "ub": ub}, True)
-        if with_info:
+        if with_info and full:
             for i in leaves:
                 yield ("reseed_at", i, {"ub": False, "cb": True, "su": True}, False)
                 yield ("reroot_at_node", i, {"ub": False, "su": True, "cb": True}, False)
                 if i != 0:
                     for (l1, l2) in edge_pairs(bf.nodes[i][2])[:2]:
                         yield ("reroot_at_edge", i, {"l1": l1, "l2": l2, "ub": False, "su": True}, False)
+    if not full:
+        return
     for s in b["rng_seeds"]:
         yield ("randomly_rotate", None, {"seed": s}, True)
     for perm in b["shuffle_indices"]:
@@ -512,7 +537,13 @@ def run_case(case, ctx, bf=None, deciding=True):
     tree = holder.get("tree")
     nodes = holder.get("nodes")
 
+    unif = "|input-has-unifurcation" if any(len(nd[3]) == 1 for nd in bf.nodes) else ""
+
     def report(sig, msg):
+        # signature = operation | [input class] | symptom
+        parts = sig.split("|", 1)
+        if op != "reroot_at_midpoint":      # (midpoint signatures carry the midpoint class instead)
+            sig = parts[0] + unif + ("|" + parts[1] if len(parts) > 1 else "")
         if deciding:
             ctx.violation(sig, msg, case)
         return sig
@@ -629,23 +660,28 @@ def run_chunk(chunk, ctx):
         for layer, shape in drawings(n, si, tier):
             ctx.count("drawings")
             ctx.count("drawings_%s" % layer)
-            for pname, lens, dyadic, ops in length_patterns(layer, shape, n, tier):
-                if ops == "midpoint" and n >= 5 and tier == "quick":
-                    ops = "midpoint-default"
+            seed_unif = len(shape) == 1 if not isinstance(shape, int) else False
+            for pname, lens, dyadic, menu in length_patterns(layer, shape, n, tier):
                 sn = ref.mk(shape, lens=list(lens))
                 bf = Before(sn)
                 lens_defined = all(x is not None for x in lens[1:])
                 ctx.count("length_assignments")
-                for rooted in rootings_for(layer, pname):
-                    if ops != "all" and rooted is None:
+                for rooted in rootings_for(layer, pname, n, tier):
+                    if menu != "full" and rooted is None:
                         continue
                     ctx.count("trees")
-                    for op, target, args, deciding in op_menu(bf, lens_defined, ops, b, with_info):
+                    for op, target, args, deciding in op_menu(bf, lens_defined, menu, b, with_info):
                         case = case_dict(shape, lens, rooted, dyadic, op, target, args)
+                        if seed_unif:
+                            # a seed with one child is a degree-one vertex of the unrooted tree: "leaf set" is
+                            # ambiguous there, so these inputs are explored but never decide
+                            ctx.count("info_seed_unifurcation_calls")
+                            if run_case(case, ctx, bf, deciding=False) != "ok":
+                                ctx.count("info_seed_unifurcation_calls_not_preserving")
+                            continue
                         if not deciding:
                             ctx.count("info_leaf_target_calls")
-                            res = run_case(case, ctx, bf, deciding=False)
-                            if res != "ok":
+                            if run_case(case, ctx, bf, deciding=False) != "ok":
                                 ctx.count("info_leaf_target_calls_not_preserving")
                             continue
                         key = (shape, tuple(lens), rooted, op, target, tuple(sorted(args.items())))
